@@ -4,6 +4,7 @@ import Nsq.Model.ChanNsqd
 import Nsq.Model.ChanInv
 import Nsq.Model.Pump
 import Nsq.Model.TopicPause
+import Nsq.Model.TopicEph
 import Nsq.Model.ChanStats
 /-! Driver for engine E2 (nsqd / topic / channel / client state machine).
 One operation per input line, one canonical answer line out (DESIGN Appendix B). -/
@@ -186,6 +187,37 @@ def tpRun (s : Nsq.Model.TopicPause.St) : List String → String
       let r := Nsq.Model.TopicPause.step true s op
       (if r.2 then "+" else "-") ++ tpRun r.1 ws
 
+/-- `teph eph=<0|1> cap=<mem-queue-size> size=<body bytes> tok…` (leg `ephtopic`, audit A5): publishes to ONE fresh topic
+while nothing is pumped, through `Nsq.Model.TopicEph.stepE` — `pubE` (→ `putTE`) for an `#ephemeral` topic, the base model's
+`pub` for a durable one. Token `p` = publish (pump not receiving), `P` = publish while the pump is receiving (matters with cap 0).
+Answer: per token `k` (kept: the topic queue grew) / `d` (dropped) / `R` (refused), then the topic's counters and depth. -/
+def tephDepth (es : Nsq.Model.TopicEph.ES) : Nat :=
+  match findT es.s.topics 1 with
+  | some tp => tp.queue.length
+  | none => 0
+
+def tephRun (eph : Bool) (size : Nat) (es : Nsq.Model.TopicEph.ES) : List String → String
+  | [] => match findT es.s.topics 1 with
+    | some tp => s!" mc={tp.msgCount} mb={tp.msgBytes} depth={tp.queue.length}"
+    | none => " no-topic"
+  | w :: ws =>
+    if w != "p" && w != "P" then "?" ++ tephRun eph size es ws else
+    let op : Nsq.Model.TopicEph.EOp := if eph then .pubE 1 size 0 {} (w == "P") else .base (.pub 1 size)
+    let r := Nsq.Model.TopicEph.stepE es op
+    let letter := match r.2 with
+      | .ids _ => if tephDepth r.1 > tephDepth es then "k" else "d"
+      | _ => "R"
+    letter ++ tephRun eph size r.1 ws
+
+def tephLine (e c sz : String) (toks : List String) : String :=
+  if !(e.startsWith "eph=" && c.startsWith "cap=" && sz.startsWith "size=") then "bad-op" else
+  match nat? (e.drop 4).toString, nat? (c.drop 4).toString, nat? (sz.drop 5).toString with
+  | some e, some cap, some size =>
+    let es0 : Nsq.Model.TopicEph.ES := { s := { conf := { memq := cap } } }
+    let es1 := (Nsq.Model.TopicEph.stepE es0 (if e == 1 then .createEphTopic 1 else .base (.createTopic 1))).1
+    tephRun (e == 1) size es1 toks
+  | _, _, _ => "bad-op"
+
 def stepLine (s : State) (line : String) : State × String :=
   match words line with
   | ["conf", memq, maxrdy, maxmsgto, maxreq] =>
@@ -280,6 +312,7 @@ def stepLine (s : State) (line : String) : State × String :=
   | ["rchan", eph, memq, mem, dq, mc, q, ifs, dfs, cls] => (s, rchanCheck eph memq mem dq mc q ifs dfs cls)
   | ["reset"] => ({}, "ok")
   | "tpause" :: toks => (s, tpRun {} toks)
+  | "teph" :: e :: c :: sz :: toks => (s, tephLine e c sz toks)
   | ["statsq", fmt, ft, fc, incl] => (s, statsqLine s fmt ft fc incl)
   | _ => (s, "bad-op")
 
